@@ -133,6 +133,11 @@ class SimpleAdapter:
         sched.spawn('C', conn)
         sched.start()
 
+    def close(self):
+        if self.sched is not None:
+            self.sched.teardown()
+            self.sched = None
+
     def apply(self, a):
         before = len(self.results)
         sent0 = len(self.c.eio.sent)
